@@ -75,6 +75,9 @@ def behaviours_script(cfgs, beh, path, select=None, mode="handler"):
                 f.write(json.dumps({"n": "Eval", "mode": mode, "presrc": "none", "filetext": [], "envstr": [], "argv": b["words"], "cmd": [],
                                     "tag": {"k": "model", "valid": b["valid"]}}) + "\n")
                 n += 1
+                if len(seen) % 4000 == 0:
+                    # a new execution of the same configuration: the validation of the recorded trace is sharded by executions
+                    f.write(json.dumps({"n": "Reset", "cfg": cfgs[ci - 1]}) + "\n")
     return n
 
 
@@ -133,7 +136,8 @@ def run_script(c, exe, script, tag, trace_module="TraceArgEval", timeout=600, en
 
 
 def line_json(line):
-    return [[u[0], [T(v) for v in u[1]]] for u in line]
+    """abstract line for the trace (TraceArgDecl.LineOf): [argument, [value texts]] and, for a sub-group use, its own line"""
+    return [[u[0], [T(v) for v in u[1]]] + ([line_json(u[2])] if len(u) > 2 else []) for u in line]
 
 
 def gen_valid(g, cfg, tries=30):
@@ -148,9 +152,18 @@ def gen_valid(g, cfg, tries=30):
                 ok = [k for k in range(len(keyed) + 1)
                       if k == 0 or not (args[keyed[k - 1][0] - 1]["multi"] or (args[keyed[k - 1][0] - 1]["vm"] == "opt" and not keyed[k - 1][1])
                                         or args[keyed[k - 1][0] - 1]["pos"])]
+                # nothing follows a command-mode use; a positional command-mode use is the last one itself
+                ok = [k for k in ok if not any(args[x[0] - 1]["vm"] == "cmd" for x in keyed[:k])]
+                if args[u[0] - 1]["vm"] == "cmd":
+                    ok = [k for k in ok if k == len(keyed)]
+                if not ok:
+                    keyed = None
+                    break
                 # requiring arguments must stay in front of the arguments they require: positional ones have no constraints
                 k = g.r.choice(ok)
                 keyed.insert(k, u)
+            if keyed is None:
+                continue
             return keyed
     return None
 
@@ -180,7 +193,9 @@ def write_cases(path, blocks):
 def finish_args(c, extra_assumptions=()):
     c.assumptions = ["boost::lexical_cast and the C++ standard library behave as documented",
                      "generated inputs stay inside the modelled language (no control characters '(' ')' '!', no dash inside a "
-                     "group of short keys, no value mode 'command'); outside it the specification leaves the outcome open",
+                     "group of short keys); outside it the specification leaves the outcome open.  Sub-groups: the end-of-line rules of a "
+                     "sub-group's handler (mandatory, lower cardinality bounds, requirements, handler constraints) are left open; value mode "
+                     "'command': nothing behind the key, '--key=...' and argument files / environment variable are left open",
                      "destination kinds: bool, int, double, std::string, std::optional<int>, LevelCounter, the containers listed in DESIGN 3, value "
                      "arguments (DEST_VAR_VALUE on int) and pair arguments (DEST_PAIR with an int as second variable)"] + list(extra_assumptions)
     return c.finish()
